@@ -1537,6 +1537,10 @@ class WBEMListener:
         except Exception as exc:  # pylint: disable=broad-exception-caught
             self.logger.error("Cleaning up callback thread due to exception "
                               "%s: %s", exc.__class__.__name__, exc)
+            # A listener thread that was started before the failure (HTTP,
+            # when starting the HTTPS part fails) must not go on
+            # acknowledging indications that can no longer be delivered.
+            self._stop_listener_threads()
             self._stop_indication_delivery(immediate=True)
             raise
 
